@@ -70,6 +70,22 @@ impl Obs {
     pub fn label(&mut self, l: &'static str) {
         self.labels.push(l)
     }
+    /// a label computed at run time (interned)
+    pub fn label_dyn(&mut self, s: &str) {
+        use std::sync::Mutex;
+        static TABLE: Mutex<std::collections::BTreeMap<String, &'static str>> = Mutex::new(std::collections::BTreeMap::new());
+        let mut t = TABLE.lock().unwrap();
+        let l = match t.get(s) {
+            Some(v) => *v,
+            None => {
+                let l: &'static str = Box::leak(s.to_string().into_boxed_str());
+                t.insert(s.to_string(), l);
+                l
+            }
+        };
+        drop(t);
+        self.labels.push(l)
+    }
     pub fn fail(&mut self, key: impl Into<String>, detail: impl Into<String>) {
         let f = Failure::new(key, detail);
         if !self.failures.iter().any(|g| g.key == f.key) {
